@@ -54,6 +54,7 @@ def run(ctx):
     _r12_character_strings_as_read(ctx)
     _r13_edns_fields_from_one_record(ctx)
     _r14_encoder_preconditions(ctx)
+    _r15_records_left_out_only_at_the_end_of_the_buffer(ctx)
     # a record taken back out of the message leaves its names in the compression tree: unless the section ends there, later names
     # are compressed against octets that are gone.  The loop shape is C04's.
     ctx.include("C04", rules=("R3", "R2"))
@@ -124,6 +125,61 @@ def _r14_encoder_preconditions(ctx):
             walks = [bb for x in fam for bb, tm in x.calls() if (callee_name(tm) or "").endswith("dnspkt::push_prefix")]
             ctx.check(bool(walks) and not direct, "R14", "names-are-written-by-the-suffix-tree-walk", ctx.where(b),
                       "push_compressed_domain writes labels itself (%s) or never calls push_prefix" % (direct or "-"))
+
+
+def _r15_records_left_out_only_at_the_end_of_the_buffer(ctx):
+    """R15 the decoder stops reading a section before its count is reached only where the message has no octets left (a truncated
+    message announces more than it carries): every exit of a section loop other than the exhaustion of its counter stands on the true
+    edge of `offset >= len(buffer)`. Stopping on the TC bit alone loses records (the OPT record among them) that are in the message."""
+    P = ctx.P
+    n = 0
+    for b in P.bodies.values():
+        if not b.id.endswith("PktParser::<'l>::get_dns"):
+            continue
+        ctx.saw(b)
+        T = terms(P, b)
+        cfg = cfg_of(b)
+
+        def m(d):
+            if d[0] == "bin" and d[1] in ("Ge", "Gt", "Le", "Lt", "Eq"):
+                xs = [norm(d[2]), norm(d[3])]
+                return any(x[0] == "field" and x[2] == "offset" for x in xs) and any(
+                    (x[0] == "call" and str(x[1]).endswith("::len")) or (x[0] == "un" and x[1] == "PtrMetadata") for x in xs)
+            return False
+        ended = []
+        for sbb, d, te, fe in bool_switches(P, b, m):
+            off_first = norm(d[2])[0] == "field"
+            if d[1] in ("Ge", "Gt", "Eq"):
+                ended += te if off_first else fe
+            else:
+                ended += fe if off_first else te
+        for loop in cfg.loops_by_header():
+            pushes = [bb for bb, tm in b.calls() if bb in loop and (callee_name(tm) or "").endswith("::push") and "Vec" in (callee_name(tm) or "")]
+            if not pushes:
+                continue
+            for u in loop:
+                for v in cfg.succ[u]:
+                    if v in loop:
+                        continue
+                    tmu = b.blocks[u]["term"]
+                    tv = b.blocks[v]["term"]
+                    if tv is not None and tv["k"] == "unreachable":
+                        continue
+                    # the counter's exhaustion: the None edge of the range iterator's next()
+                    if tmu["k"] == "switch":
+                        d = norm(T.at_term(tmu["discr"], u))
+                        if d[0] == "discr" and norm(d[1])[0] == "call" and str(norm(d[1])[1]).endswith("::next") and (u, v) in discr_edges(cfg, u, 0):
+                            continue
+                    # error returns of `?` leave the loop too: they end the decoding, nothing is silently dropped
+                    r = cfg.reachable_from(v)
+                    okb = {bb for bb, idx, st in b.stmts() if st["p"] == (0,) and st.get("rv") and st["rv"]["k"] == "agg" and st["rv"].get("variant") == "Ok"}
+                    if not (r & okb):
+                        continue
+                    n += 1
+                    ctx.check(edge_dominated(cfg, ended, v) or edge_dominated(cfg, ended, u), "R15", "section-cut-short-only-at-the-end-of-the-buffer", ctx.where(b, tmu.get("sp")),
+                              "a section loop is left before its count is reached on a path where the buffer was not found exhausted")
+    if ctx.config in ("default", "dns"):
+        ctx.floor("R15", "early exits of the decoder's section loops", n, 1)
 
 
 def _r13_edns_fields_from_one_record(ctx):
